@@ -149,14 +149,18 @@ def maskInsideTrimesh (faces : List (Tri α)) (x : V3 α) : Bool :=
 /-! ### `is_facet_inwards` -/
 
 /-- `is_facet_inwards(face, faces)`: a check point displaced from the facet centre along `cross(v1, v2)` by
-`1e-5·|v1|` is tested with `mask_inside_trimesh`.  (`np.linalg.norm` of a 3-vector is `sqrt(x·x)`; `face.mean(axis=0)` is
+`1e-5·size` is tested with `mask_inside_trimesh`; since repo fix ed093b8 `size` is the facet's longest edge
+`max(|v1|, |v2|, |v3|)` (before: `|v1|`, which let a sliver facet starting with its short edge fall inside the ray
+test's touch tolerance).  (`np.linalg.norm` of a 3-vector is `sqrt(x·x)`; `face.mean(axis=0)` is
 `((f0 + f1) + f2) / 3`; `orient /= norm` divides componentwise.) -/
 def isFacetInwards (face : Tri α) (faces : List (Tri α)) : Bool :=
   let v1 := face.1 - face.2.1
   let v2 := face.2.1 - face.2.2
   let orient := V3.cross v1 v2
   let orient := vd orient (norm orient)
-  let eps := n 1 / n 100000 * norm v1
+  let v3 := face.2.2 - face.1
+  let size := pyMax (pyMax (norm v1) (norm v2)) (norm v3)
+  let eps := n 1 / n 100000 * size
   let centre := vd (face.1 + face.2.1 + face.2.2) (n 3)
   let check : V3 α := ⟨centre.x + orient.x * eps, centre.y + orient.y * eps, centre.z + orient.z * eps⟩
   maskInsideTrimesh faces check
